@@ -6,4 +6,5 @@ import Setec.Properties.C04
 import Setec.Properties.C05
 import Setec.Properties.C06
 import Setec.Properties.C07
+import Setec.Properties.C08
 import Setec.Properties.C09
